@@ -40,6 +40,10 @@ META_NAMES = {"side": "f1.txt.abstract", "side3d": "m2.txt.3d", "dirabs": ".abst
 # (a dangling link in the place of the cache file is left out: the server writes its cache through it,
 # which creates the target -- a new entry, not an unservable one)
 META_KINDS = ["%s:%s" % (m, k) for m in META_NAMES for k in ("fifo", "socket", "dangling", "loop", "dir") if not (m.endswith("cache") and k == "dangling")]
+# ... and with logmethod = file, standard output being a strict UTF-8 text stream (redirected to a log file)
+FILELOG_KINDS = ["dangling-latin1f", "fifo-latin1f", "dotdot-latin1f", "vanished-latin1f"]
+# a directory that holds NOTHING servable: only faulty entries (alone and as pairs)
+ONLY_KINDS = ["dangling", "fifo", "socket", "vanished", "eacces", "dotdot-name", "loop"]
 SYSLOG_KINDS = ["dangling-latin1", "fifo-latin1", "dotdot-latin1", "vanished-latin1"]
 
 
@@ -57,6 +61,8 @@ def fault_name(kind, pos):
         return POSITIONS[pos] + "broken..x.pyg"
     if kind.endswith("-zip"):
         return POSITIONS[pos] + "-" + kind[:-4] + ".zip"
+    if kind.endswith("-latin1f"):
+        kind = kind[:-1]
     if kind.endswith("-latin1"):
         return POSITIONS[pos] + "caf\udce9-" + kind[:-7] + (".." if kind.startswith("dotdot") else "") + ".txt"
     if kind == "dotdir":
@@ -171,6 +177,8 @@ def _plant(root, d, kind, pos):
     if kind in ("dotdot-pyg", "broken-pyg"):
         rig.write_file(p, b"raise RuntimeError('this module must never be imported')\n", mode=0o755)
         return name
+    if kind.endswith("-latin1f"):
+        kind = kind[:-1]
     if kind.endswith("-zip") or kind.endswith("-latin1"):
         kind = kind.rsplit("-", 1)[0]
         if kind == "dotdot":
@@ -249,16 +257,38 @@ def _use_syslog(on):
     _syslog_on = on
 
 
-def _run_case(hname, faults, zipmode=False, hide=False):
+_real_stdout = None
+
+
+def _use_filelog(on):
+    """logmethod = file with sys.stdout a strict UTF-8 text stream, as when it is redirected to a file."""
+    global _real_stdout
+    import io
+    import sys
+
+    from pygopherd import logger
+
+    if on:
+        _real_stdout = sys.stdout
+        sys.stdout = io.TextIOWrapper(io.BytesIO(), encoding="utf-8", errors="strict")
+        logger.log = logger.log_file
+    elif _real_stdout is not None:
+        sys.stdout = _real_stdout
+        _real_stdout = None
+        logger.log = rig.LOG
+
+
+def _run_case(hname, faults, zipmode=False, hide=False, only=False):
     """faults: tuple of (kind, pos). -> list of (proto, class, detail)"""
     _patch()
     _use_syslog(any(k.endswith("-latin1") for k, _ in faults))
+    _use_filelog(any(k.endswith("-latin1f") for k, _ in faults))
     _ghosts.clear()
     _eacces.clear()
     _eopen.clear()
     _os_stat_fail.clear()
     _os_prefix_fail.clear()
-    w = rig.World({"t": {k: (dict(v) if isinstance(v, dict) else v) for k, v in BASE.items()}}, handlers=HANDLERS[hname], cachetime=0, tag="c12")
+    w = rig.World({"t": ({} if only else {k: (dict(v) if isinstance(v, dict) else v) for k, v in BASE.items()})}, handlers=HANDLERS[hname], cachetime=0, tag="c12")
     bad = []
     try:
         base = {}
@@ -308,6 +338,7 @@ def _run_case(hname, faults, zipmode=False, hide=False):
                     bad.append((p, "dotdir-listing-failed", "listing of /t/%s answered %r (%s)" % (name, r.out[:100], r.describe_error())))
     finally:
         _use_syslog(False)
+        _use_filelog(False)
         _ghosts.clear()
         _eacces.clear()
         _eopen.clear()
@@ -369,10 +400,11 @@ def _shard(shard, seed, tier):
             case = {"kind": "zip", "i": item[1]}
         else:
             _, hname, faults = item[:3]
-            hide = len(item) > 3 and item[3]
-            bad = _run_case(hname, faults, hide=hide)
-            label = "%s%s|%s" % (hname, "+hidden" if hide else "", "+".join("%s@%s" % f for f in faults))
-            case = {"kind": "dir", "hname": hname, "faults": [list(f) for f in faults], "hide": hide}
+            hide = len(item) > 3 and item[3] is True
+            only = len(item) > 3 and item[3] == "only"
+            bad = _run_case(hname, faults, hide=hide, only=only)
+            label = "%s%s%s|%s" % (hname, "+hidden" if hide else "", "+nothing-else" if only else "", "+".join("%s@%s" % f for f in faults))
+            case = {"kind": "dir", "hname": hname, "faults": [list(f) for f in faults], "hide": hide, "only": only}
         part.evaluations += len(PROTOS)
         part.transitions += len(PROTOS) * 2
         part.state(label)
@@ -394,7 +426,7 @@ def replay(case):
     if case["kind"] == "zip":
         bad = _run_zip(case["i"])
     else:
-        bad = _run_case(case["hname"], tuple(tuple(f) for f in case["faults"]), hide=case.get("hide", False))
+        bad = _run_case(case["hname"], tuple(tuple(f) for f in case["faults"]), hide=case.get("hide", False), only=case.get("only", False))
     return (bad[0][1], bad[0][2]) if bad else None
 
 
@@ -411,6 +443,14 @@ def run(ck):
                 cases.append(("dir", h, ((k, p),)))
     for k in KINDS:
         cases.append(("dir", "full", ((k, "middle"),)))
+    for k in FILELOG_KINDS:
+        for h in ("umn", "dir", "full"):
+            cases.append(("dir", h, ((k, "middle"),)))
+    for h in ("umn", "dir"):
+        for k in ONLY_KINDS:
+            cases.append(("dir", h, ((k, "middle"),), "only"))
+        for k1, k2 in itertools.combinations(ONLY_KINDS, 2):
+            cases.append(("dir", h, ((k1, "first"), (k2, "last")), "only"))
     for k in OS_KINDS:
         for h in ("umn", "dir", "full"):
             for pos in POSITIONS:
